@@ -1,5 +1,20 @@
 #![recursion_limit = "256"]
 
+// Verification hook (see `verif_sched`); expands to nothing unless the feature is enabled.
+#[cfg(feature = "fuellabs_sway_verif")]
+macro_rules! verif_point {
+    ($name:expr) => {
+        $crate::verif_sched::point($name)
+    };
+}
+#[cfg(not(feature = "fuellabs_sway_verif"))]
+macro_rules! verif_point {
+    ($name:expr) => {};
+}
+
+#[cfg(feature = "fuellabs_sway_verif")]
+pub mod verif_sched;
+
 pub mod capabilities;
 pub mod config;
 pub mod core;
